@@ -404,7 +404,19 @@ class LazyAw:
         self.rec, self.value = rec, value
 
     def make(self):
-        return Aw(self.rec, self.value)
+        aw = Aw(self.rec, self.value)
+        self.rec.nlazy = getattr(self.rec, "nlazy", 0) + 1
+        if self.rec.nlazy % 2 == 0:
+            # every second one is a generator-based coroutine (types.coroutine): `await` takes it, although it is
+            # no instance of collections.abc.Awaitable
+            import types  # noqa: PLC0415
+
+            @types.coroutine
+            def gen_based():
+                return (yield from aw.__await__())
+
+            return gen_based()
+        return aw
 
 
 class SeqSource:
